@@ -373,6 +373,29 @@ func runC15(c *sim.Ctx) *sim.Violation {
 			}
 		}
 	}
+	// the WILL property length of a foreign CONNECT at the width boundaries - the one
+	// property length that FOLLOWS another property section (empty or not) in the
+	// same body: the in-memory decoder must return its value and advance by its bytes
+	{
+		target := []int{127, 128, 129, 300, 16383, 16384, 16385, 40000}[t.Int(8)]
+		w := &ref.Will{Topic: []byte("w"), Payload: []byte("p"), Props: []ref.Prop{{ID: 0x26, K: []byte("k"), V: bytes.Repeat([]byte("v"), target-6)}}}
+		ca := &ref.AP{Type: ref.Connect, ProtoName: []byte("MQTT"), ProtoVer: 5, ClientID: []byte("c"), ConnFlags: ref.CFWill, Will: w}
+		if t.Bool(1, 2) {
+			ca.Props = []ref.Prop{{ID: 0x11, N: 7}}
+			if t.Bool(1, 2) {
+				ca.Props = append(ca.Props, ref.Prop{ID: 0x26, K: []byte("a"), V: bytes.Repeat([]byte("b"), 1+t.Int(300))})
+			}
+		}
+		frame, _ := ref.Encode(ca)
+		o := ReadOne(link.NewReader(c, frame, link.Mode{}))
+		if o.Kind != "packet" {
+			return sim.V("C15/decode/will-property-length/rejected", "CONNECT frame (%d bytes, own property section of %d properties, will property length %d): %s", len(frame), len(ca.Props), target, o)
+		}
+		if name, wv, gv := ref.FirstDiff(ca.Canon(), drv.Observe(o.P).Canon()); name != "" {
+			return sim.V("C15/decode/will-property-length/"+name, "CONNECT frame (own property section of %d properties, will property length %d): %s want %q got %q", len(ca.Props), target, name, wv, gv)
+		}
+		c.Count("probe.will-property-length-decoded-at-a-width-boundary")
+	}
 	// several subscription identifiers in one PUBLISH: each is decoded by the same
 	// in-memory decoder, one after the other
 	{
